@@ -467,6 +467,15 @@ def _stats_request (ctx, repo, sw, h, stats_handlers, weight, spec):
 
 def _family (ctx, repo, swmod, f, c, t, cd, spec):
   if t is None or cd is None: return
+  if isinstance(cd, ast.Name) and not norm(cd).isupper():
+    # the code is carried in a local: judge every constant it can hold at the call
+    g_ = q.cfg_of(f); n_ = q.enclosing_stmt_node(g_, c)
+    pv = q.provenance(g_, n_, cd.id) if n_ is not None else []
+    vals = [val for d_, kind, val in pv if kind == 'assign' and isinstance(val, (ast.Name, ast.Attribute)) and norm(val).split('.')[-1].isupper()]
+    if pv and len(vals) == len(pv):
+      for v_ in vals: _family(ctx, repo, swmod, f, c, t, v_, spec)
+      return
+    ctx.undecided('R-AGREE', f, "error family of `%s`" % norm(c)[:50], "the error code `%s` is not a constant and its origins are not all constants" % cd.id, (swmod, c), 'D5'); return
   tn, cn = norm(t), norm(cd)
   fam = spec['error_code_families'].get(tn)
   if fam is None:
